@@ -2,7 +2,7 @@
 
    (1) noninterference on attribute stores: if the datum passes [covered], then for ANY
        meaning of the callbacks respecting their frames and any two stores that agree on the
-       persistent pair (right_disp_map, step) -- e.g. a fresh machine and a machine after an
+       persistent attribute (step; right_disp_map is reassigned by run_prepare) -- e.g. a fresh machine and a machine after an
        arbitrary history -- run_prepare followed by any callback sequence that starts with
        the callbacks of the first trigger yields the same products.
    (2) the callback sequence of a run of an accepted pipeline starts with those callbacks.
